@@ -6,6 +6,7 @@ import pcommon
 from cxxheaderparser.errors import CxxParseError
 from cxxheaderparser.simple import parse_string
 
+TECHNIQUE = 'Lean 4: theorems on the line counter, #line re-basing and error locations of the lexer/stream model; per-declaration locations decided by correspondence on locations and line oracles (not a theorem)'
 LEAN_TARGET = "CxxModel.Props.C10"
 THEOREMS = ["Cxx.C10_location_is_lexer_line", "Cxx.C10_line_directive_rebases", "Cxx.C10_error_location", "Cxx.C10_countNl_append", "Cxx.C10_action_lineno",
             "Cxx.lexer_helpers_standard"]
